@@ -127,6 +127,13 @@ def prove(chk, gen_info):
                 broken.append(f'Sarpy.Bridge.Chk.{r} (required theorem missing)')
                 broken_rules.add(rule)
         nb = 0
+    if chk.tier == 'thorough' and not broken:
+        from common import sh
+        mods = ['SarpyModel.Props.C18Rules', 'SarpyModel.Bridge.CheckerRules']
+        rc, out, err = sh(['lake', 'env', 'leanchecker'] + mods, cwd=LEAN, timeout=3000)
+        chk.coverage['leanchecker_rules'] = {'modules': mods, 'ok': rc == 0}
+        if rc != 0:
+            broken.append('leanchecker rejects ' + ' '.join(mods) + ': ' + (out + err)[-400:])
     bad = {n: a for n, a in thms.items() if set(a) - ALLOWED_AXIOMS}
     for n, a in bad.items():
         broken.append(f'{n} depends on non-standard axioms {sorted(set(a) - ALLOWED_AXIOMS)}')
